@@ -347,8 +347,12 @@ def main_check(prop_id, tier):
         "wall_s": round(time.time() - t0, 2),
         "violations": (len(unknown) if unknown else (1 if verdict == "violation" else 0)),
     }
-    os.makedirs(os.path.join(VERIF, "evidence"), exist_ok=True)
-    with open(os.path.join(VERIF, "evidence", f"{prop_id}.json"), "w", encoding="utf-8") as f:
+    # the evidence file of record describes a run against /repo; a run against a scratch tree (VERIF_REPO: a seeded change
+    # or a refactoring being tried out) writes its evidence under out/ so that it can never be committed in its place
+    evdir = os.path.join(VERIF, "evidence") if os.path.realpath(REPO) == os.path.realpath("/repo") \
+        else os.path.join(VERIF, "out", "evidence_scratch")
+    os.makedirs(evdir, exist_ok=True)
+    with open(os.path.join(evdir, f"{prop_id}.json"), "w", encoding="utf-8") as f:
         json.dump(ev, f, indent=1, default=str)
 
     lean.drop_driver_snapshot()
